@@ -228,7 +228,7 @@ def classify_denominator(pm, u, f, den, te):
                 return True
             return _nonneg(e.left, depth + 1) and _nonneg(e.right, depth + 1)
         if isinstance(e, ast.Call):
-            last = (call_name(e) or "").split(".")[-1]
+            last = (call_name(e) or "").split(".")[-1] or (e.func.attr if isinstance(e.func, ast.Attribute) else "")
             if last in ("square", "abs", "absolute"):
                 return True
             if last == "arange" and 1 <= len(e.args) <= 1:
